@@ -1,4 +1,4 @@
-\* C07: the tree WITHOUT the Q4 size validation on lazy open (candidate defect #10): TLC reports LookupRight violated.
+\* C07: writers that reserve the final file size before writing (seeded change C07-2): size validation is blind; TLC reports LinkedIsComplete / RePutWorks violated.
 SPECIFICATION Spec
 CONSTANTS
   DataHeights = {1}
@@ -6,8 +6,8 @@ CONSTANTS
   MaxOps = 3
   MaxCrashes = 2
   OpKinds = {"PutODSQ4", "PutODS", "RemoveODSQ4", "RemoveQ4"}
-  ValidateQ4OnOpen = FALSE
-  Prealloc = FALSE
+  ValidateQ4OnOpen = TRUE
+  Prealloc = TRUE
   EmitCases = FALSE
 VIEW view
 INVARIANTS TypeOK LinkedIsComplete NoPartialServed LookupRight PutNeverFails RePutWorks RemoveRemoves EmptyFileComplete DirsFirst CaseOut
